@@ -226,6 +226,19 @@ def check(P: Project, R: Report) -> None:
             elif name == "OPT_INDENT_2":
                 guards = [i for i in walk_local(f.node) if isinstance(i, ast.If) and node in list(walk_local(i)) and "indent" in ast.unparse(i.test)]
                 R.ob("R2", f"{fname}: OPT_INDENT_2 only under the caller's indent request", bool(guards), where, "indentation is applied unconditionally: compact encodings contain raw line breaks", sample="R2 OPT_INDENT_2 guarded by kwargs.get('indent')")
+                # the request is read by value, not by presence: compact callers pass `indent=None` explicitly (the
+                # no-Pydantic model_dump_json does), and that must stay compact under both backends
+                from ..consteval import NotConstant as _NC, fold as _fold
+
+                kwname = f.node.args.kwarg.arg if f.node.args.kwarg is not None else "kwargs"
+                for g_ in guards:
+                    for label_, env_, want_ in (("indent=None", {kwname: {"indent": None}}, False), ("no indent keyword", {kwname: {}}, False)):
+                        try:
+                            got_ = bool(_fold(P, f.module, g_.test, local=env_))
+                        except _NC as e_:
+                            raise AnalysisError(f"{mod.rel}:{g_.lineno}: the test that selects OPT_INDENT_2 (`{ast.unparse(g_.test)[:60]}`) cannot be read off for {label_} ({e_})")
+                        R.ob("R2", f"{fname}: with {label_} no indentation option is selected", got_ is want_, f"{mod.rel}:{g_.lineno}",
+                             f"`{ast.unparse(g_.test)[:70]}` holds for {label_}: a caller that asks for the compact form gets a multi-line encoding under the fast backend and a single line under stdlib json — one message becomes many NDJSON lines")
             elif name in NEEDS_FALLBACK_ARM:
                 R.ob("R2", f"{fname}: {name} keeps the stdlib fallback arm", has_fallback_arm, where, NEEDS_FALLBACK_ARM[name])
             elif name in HARMLESS_ORJSON:
